@@ -1,0 +1,22 @@
+//go:build verif
+
+package coordinator
+
+import (
+	"github.com/oxia-db/oxia/common/concurrent"
+	"github.com/oxia-db/oxia/coordinator/resources"
+	"github.com/oxia-db/oxia/proto"
+)
+
+// Thin export for the /verif correspondence harness (property C18). No logic.
+
+// VerifComputeAssignments runs the real computeNewAssignments of a coordinator that only has the
+// given status resource, and returns what it would publish to the servers.
+func VerifComputeAssignments(statusResource resources.StatusResource) *proto.ShardAssignments {
+	c := &coordinator{statusResource: statusResource}
+	c.assignmentsChanged = concurrent.NewConditionContext(c)
+	c.Lock()
+	defer c.Unlock()
+	c.computeNewAssignments()
+	return c.assignments
+}
